@@ -44,6 +44,8 @@ Opts(c) == CASE c = "absent" -> {}
              [] c = "close, x" -> {"close", "x"}
              [] c = "x, close" -> {"close", "x"}
              [] c = "x" -> {"x"}
+             [] c = "keep-alive, x" -> {"keep-alive", "x"}
+             [] c = "keep-alive, close" -> {"keep-alive", "close"}
              [] OTHER -> {}
 
 HasBody(c) == c.reqbody # "none"
@@ -61,6 +63,15 @@ NoRespBody(c) == c.method = "HEAD" \/ c.rstatus = 204
 SelfDelimiting(c) == NoRespBody(c) \/ c.style \in {"buffered", "flushed_cl"} \/ c.version = "1.1"
 
 StayOpen(c) == RequestAllows(c) /\ ~c.nka /\ SelfDelimiting(c) /\ ~c.early
+
+(* HTTP/1.0 with keep-alive inside a longer option list: whether such a request "allows" persistence is
+   left open (both answers accepted), but everything else still binds: a close option, no_keep_alive, a
+   response that is not self-delimiting and an unread request body all force the close. *)
+AllowanceFree(c) == c.version = "1.0" /\ "keep-alive" \in Opts(c.conn) /\ Cardinality(Opts(c.conn)) > 1
+MustClose(c) == "close" \in Opts(c.conn) \/ c.nka \/ ~SelfDelimiting(c) \/ c.early
+                \/ (c.version = "1.0" /\ ~(c.method \in {"GET", "HEAD"} \/ c.reqbody # "none"))
+OpenChoices(c) == IF AllowanceFree(c) THEN (IF MustClose(c) THEN {FALSE} ELSE {TRUE, FALSE})
+                  ELSE {StayOpen(c)}
 
 Proj == [open |-> open, answered |-> answered]
 Obs(a) == [act |-> a, args |-> <<>>, exp |-> Proj']
@@ -80,7 +91,7 @@ Respond1 ==
     /\ phase = "start"
     /\ phase' = "one"
     /\ answered' = 1
-    /\ open' = StayOpen(cfg)
+    /\ open' \in OpenChoices(cfg)
     /\ UNCHANGED cfg
     /\ step' = Obs("respond1")
 
